@@ -130,7 +130,7 @@ static int64_t eval_rval(Node *node, char ***label);
 static bool is_const_expr(Node *node);
 static Node *assign(Token **rest, Token *tok);
 static Node *logor(Token **rest, Token *tok);
-static double eval_double(Node *node);
+static long double eval_double(Node *node);
 static Node *conditional(Token **rest, Token *tok);
 static Node *logand(Token **rest, Token *tok);
 static Node *bitor(Token **rest, Token *tok);
@@ -1502,6 +1502,11 @@ write_gvar_data(Relocation *cur, Initializer *init, Type *ty, char *buf, int off
     return cur;
   }
 
+  if (ty->kind == TY_LDOUBLE) {
+    *(long double *)(buf + offset) = eval_double(init->expr);
+    return cur;
+  }
+
   char **label = NULL;
   uint64_t val = eval2(init->expr, &label);
 
@@ -2057,7 +2062,11 @@ int64_t const_expr(Token **rest, Token *tok) {
   return eval(node);
 }
 
-static double eval_double(Node *node) {
+static long double eval_double2(Node *node);
+
+// Evaluate a floating constant expression. The result has the range
+// and precision of the type of the expression, as it has at run time.
+static long double eval_double(Node *node) {
   add_type(node);
 
   if (is_integer(node->ty)) {
@@ -2066,15 +2075,42 @@ static double eval_double(Node *node) {
     return eval(node);
   }
 
+  long double val = eval_double2(node);
+  if (node->ty->kind == TY_FLOAT)
+    return (float)val;
+  if (node->ty->kind == TY_DOUBLE)
+    return (double)val;
+  return val;
+}
+
+static long double eval_double2(Node *node) {
   switch (node->kind) {
   case ND_ADD:
-    return eval_double(node->lhs) + eval_double(node->rhs);
   case ND_SUB:
-    return eval_double(node->lhs) - eval_double(node->rhs);
   case ND_MUL:
-    return eval_double(node->lhs) * eval_double(node->rhs);
-  case ND_DIV:
-    return eval_double(node->lhs) / eval_double(node->rhs);
+  case ND_DIV: {
+    long double lhs = eval_double(node->lhs);
+    long double rhs = eval_double(node->rhs);
+
+    // Both operands have the type of the result. float and double
+    // operations are done in double so that they round only once.
+    if (node->ty->kind != TY_LDOUBLE) {
+      double x = lhs, y = rhs;
+      switch (node->kind) {
+      case ND_ADD: return x + y;
+      case ND_SUB: return x - y;
+      case ND_MUL: return x * y;
+      default: return x / y;
+      }
+    }
+
+    switch (node->kind) {
+    case ND_ADD: return lhs + rhs;
+    case ND_SUB: return lhs - rhs;
+    case ND_MUL: return lhs * rhs;
+    default: return lhs / rhs;
+    }
+  }
   case ND_NEG:
     return -eval_double(node->lhs);
   case ND_COND:
@@ -2082,9 +2118,7 @@ static double eval_double(Node *node) {
   case ND_COMMA:
     return eval_double(node->rhs);
   case ND_CAST:
-    if (is_flonum(node->lhs->ty))
-      return eval_double(node->lhs);
-    return eval(node->lhs);
+    return eval_double(node->lhs);
   case ND_NUM:
     return node->fval;
   }
